@@ -101,6 +101,24 @@ def main():
              head + [over, 'println!("{:?}", kept.len());'],
              head + ['println!("{:?}", kept.len());', over])
         n += 3
+    # the caller's own array read again after the buffer is gone (the parser wrote `Header<'buf>` into it)
+    for ename, (kind, uninit, call) in ENTRIES.items():
+        if uninit:
+            continue
+        msg = REQ if kind == "req" else RESP
+        ty = "Request" if kind == "req" else "Response"
+        inner = ["let buf = %s.to_vec();" % msg, "let mut r = httparse::%s::new(&mut h);" % ty, "let cfg = httparse::ParserConfig::default();", "let _ = &cfg;", "let _ = %s;" % call.format(buf="&buf")]
+        for fld in ("name", "value"):
+            emit("%s__array_%s__read_after_buffer" % (ename, fld),
+                 ["let mut h = [httparse::EMPTY_HEADER; 4];", "{"] + ["    " + x for x in inner] + ["}", 'println!("{:?}", h[0].%s);' % fld],
+                 ["let mut h = [httparse::EMPTY_HEADER; 4];", "{"] + ["    " + x for x in inner + ['println!("{:?}", h[0].%s);' % fld]] + ["}"])
+            n += 1
+    for fld in ("name", "value"):
+        inner = ["let buf = %s.to_vec();" % HDRS, "let _ = httparse::parse_headers(&buf, &mut h);"]
+        emit("parse_headers__array_%s__read_after_buffer" % fld,
+             ["let mut h = [httparse::EMPTY_HEADER; 4];", "{"] + ["    " + x for x in inner] + ["}", 'println!("{:?}", h[0].%s);' % fld],
+             ["let mut h = [httparse::EMPTY_HEADER; 4];", "{"] + ["    " + x for x in inner + ['println!("{:?}", h[0].%s);' % fld]] + ["}"])
+        n += 1
     # parse_headers
     get = "let hs = match out { Ok(httparse::Status::Complete((_, hs))) => hs, _ => panic!() };"
     for fname, (fty, fexpr) in {"hname": ("&str", "hs[0].name"), "hvalue": ("&[u8]", "hs[0].value")}.items():
